@@ -262,6 +262,50 @@ def t_tp_hex_q2(c):
 
 
 # ---------------------------------------------------------------------------
+# groups sharing every plausible memo key (corpus_meta.GROUPS)
+
+
+def _group_form(c, cell, el, degree, vec=False):
+    m = c.mesh(cell)
+    V = c.space(m, el)
+    u, v = ufl.TrialFunction(V), ufl.TestFunction(V)
+    return [inner(u, v) * dx(degree=degree) + inner(grad(u), grad(v)) * dx(degree=degree) + inner(u, v) * ds(degree=degree)]
+
+
+def _custom_form(c, weights, degree=1):
+    cell = "triangle"
+    m = c.mesh(cell)
+    V = c.space(m, _el("Lagrange", cell, degree))
+    u, v = ufl.TrialFunction(V), ufl.TestFunction(V)
+    md = {"quadrature_rule": "custom",
+          "quadrature_points": np.array([[0.25, 0.25], [0.5, 0.25], [0.25, 0.5], [0.125, 0.125]]),
+          "quadrature_weights": np.array(weights)}
+    return [inner(u, v) * dx(metadata=md) + inner(grad(u), grad(v)) * dx(metadata=md)]
+
+
+_V = basix.LagrangeVariant
+GROUP_BUILDERS = {
+    "g_p1_q2": lambda c: _group_form(c, "triangle", _el("Lagrange", "triangle", 1), 2),
+    "g_iso_q2": lambda c: _group_form(c, "triangle", _el("iso", "triangle", 1), 2),       # macro element: polyset macroedge
+    "g_p2_q2": lambda c: _group_form(c, "triangle", _el("Lagrange", "triangle", 2), 2),
+    "g_dg1_q2": lambda c: _group_form(c, "triangle", _el("Discontinuous Lagrange", "triangle", 1), 2),
+    "g_p1vec_q2": lambda c: _group_form(c, "triangle", _el("Lagrange", "triangle", 1, shape=(2,)), 2),
+    "g_p3_gll_q4": lambda c: _group_form(c, "triangle", _el("Lagrange", "triangle", 3, lagrange_variant=_V.gll_warped), 4),
+    "g_p3_equi_q4": lambda c: _group_form(c, "triangle", _el("Lagrange", "triangle", 3, lagrange_variant=_V.equispaced), 4),
+    "g_dp3_legendre_q4": lambda c: _group_form(
+        c, "triangle", _el("Lagrange", "triangle", 3, lagrange_variant=_V.legendre, discontinuous=True), 4),
+    "g_custom_w1": lambda c: _custom_form(c, [0.125, 0.125, 0.125, 0.125]),
+    "g_custom_w2": lambda c: _custom_form(c, [0.25, 0.125, 0.0625, 0.0625]),
+    "g_custom_w1_p2": lambda c: _custom_form(c, [0.125, 0.125, 0.125, 0.125], degree=2),
+    "g_q1_quad_q2": lambda c: _group_form(c, "quadrilateral", _el("Lagrange", "quadrilateral", 1), 2),
+    "g_dq1_quad_q2": lambda c: _group_form(c, "quadrilateral", _el("Lagrange", "quadrilateral", 1, discontinuous=True), 2),
+    "g_tpq1_quad_q2": lambda c: _group_form(
+        c, "quadrilateral",
+        basix.ufl.wrap_element(basix.create_tp_element(basix.ElementFamily.P, basix.CellType.quadrilateral, 1, _V.gll_warped)), 2),
+}
+
+
+# ---------------------------------------------------------------------------
 # expressions
 
 
@@ -316,13 +360,15 @@ FORM_TEMPLATES = {
     "expr_p2_tri": t_expr_p2_tri,
     "expr_vec_tet": t_expr_vec_tet,
 }
+FORM_TEMPLATES.update(GROUP_BUILDERS)
 
 def build(name: str, route: int = 0) -> dict:
     """Template name -> {"objs", "object_names"}.  `demo:<Name>` loads /repo/demo/<Name>.py the way
     ffcx.main does (ufl.algorithms.load_ufl_file: exec of the file, forms/expressions/elements from its
     namespace, object names by id)."""
     if name.startswith("req:"):
-        return {"objs": build_request({"tmpl": name[4:], "n": 1, "pts": "tri6", "opt": "default", "flag": "O2"},
+        pts = "int12" if name[4:] == "expr_int" else "tri6"
+        return {"objs": build_request({"tmpl": name[4:], "n": 1, "pts": pts, "opt": "default", "flag": "O2"},
                                       route)[1], "object_names": None}
     if name.startswith("demo:"):
         import ffcx
@@ -425,6 +471,26 @@ def _req_expr_int(c, pts):
     return "expressions", [(k * f + f.dx(0), points_variant(pts))]
 
 
+def _req_form_two_mesh(c):
+    cell = "triangle"
+    m0, m1 = c.mesh(cell), c.mesh(cell, degree=2)
+    V0 = c.space(m0, _el("Lagrange", cell, 1))
+    V1 = c.space(m1, _el("Lagrange", cell, 2))
+    u, v = ufl.TrialFunction(V0), ufl.TestFunction(V1)
+    f, g = c.coef(V0), c.coef(V1)
+    return "forms", [f * inner(u.dx(0), v.dx(0)) * dx(domain=m0) + g * inner(u, v) * dx(domain=m0)]
+
+
+def _req_expr_two_mesh(c, pts):
+    """An affine-mesh coefficient times the derivative of a coefficient on a quadratic mesh."""
+    cell = "triangle"
+    m0, m1 = c.mesh(cell), c.mesh(cell, degree=2)
+    f = c.coef(c.space(m0, _el("Lagrange", cell, 1)))
+    g = c.coef(c.space(m1, _el("Lagrange", cell, 2)))
+    k = c.const(m1)
+    return "expressions", [(f * g.dx(0) + k * g, points_variant(pts))]
+
+
 def build_request(recipe: dict, route: int = 0):
     """-> (kind, objects, options dict, compile args, debug flag)"""
     c = Ctx(route)
@@ -443,6 +509,10 @@ def build_request(recipe: dict, route: int = 0):
         kind, objs = _req_expr_tri(c, recipe["pts"])
     elif t == "expr_int":
         kind, objs = _req_expr_int(c, recipe["pts"])
+    elif t == "form_two_mesh":
+        kind, objs = _req_form_two_mesh(c)
+    elif t == "expr_two_mesh":
+        kind, objs = _req_expr_two_mesh(c, recipe["pts"])
     else:
         raise KeyError(t)
     if recipe.get("n", 1) == 2:
